@@ -1,9 +1,10 @@
 CFG = {
     "jobs": lambda tier: [
+        J("scaled", "c02-comp --aspect C13", imports="Base Stream Inst Run RunFsComp", shard=20),
         J("scaled", "witness --only C13"),
         J("scaled", "c13", imports="Base Stream Inst Run RunC13"),
     ],
-    "run_modules": ["RunC13"],
+    "run_modules": ["RunC13", "RunFsComp"],
     "rule": "scaled constants: 48 (quick) / 300 (thorough) generated archives (as C01: 1-4 files, boundary-sized interleaved pieces, the 4 layer "
             "combinations in turn, levels {0,1,5,9,11}), each (a) written through a sink accepting at most sched[i] bytes at the i-th write "
             "(schedules: constant 1, 2, 3, one of {5,7,13,31,97}, 100000, or 2-11 random quotas in 1..39; last entry repeats) and reporting "
@@ -11,6 +12,7 @@ CFG = {
             "and full read of every file, linear extraction of all files) through a source returning at most ssched[i] bytes per read (same "
             "schedule family); (c) repaired from that source, intact and cut at two random positions after the header, in both decryption modes "
             "when encrypted; non-trivial = the archive has content; distinct = distinct (plan, sink schedule, interruptions, source schedule)",
+    "rule_fscomp": 'c02-comp (scaled, BLOCK=256, FSBUF=32): 40 (quick) / 160 (thorough) compressed-only layer streams of 0..3*BLOCK+20 bytes (fixed lengths 0, 1, BLOCK-1, BLOCK, BLOCK+1, 2*BLOCK, 3*BLOCK+20, then random), entropy {runs, text, random} x levels {0, 5, 11}, written in random pieces, every second one with flush() after random pieces; for each stream EVERY truncation length of the wire x read sizes {1, 7, 32, 4096}: the real CompressionLayerFailSafeReader run to the first Ok(0)/error; oracles: the four read sizes give the same output at every cut; at 14 cuts per stream a ThrottledReader returning 1, 2, 3 bytes per read gives the same total output as memory; model comparison with inner quotas {1, 2, 3, 5} (model source: Stream.Throttled)',
     "exhaustive": {"quick": False, "thorough": False},
     "explanation": "theorems (writing side, Sink.v/SinkProofs.v): std's write_all into a destination that accepts any part (>= 1 byte) of each "
                    "write and reports any number of interruptions leaves exactly data ++ buf, for EVERY finite schedule (write_all_sched); a "
@@ -26,7 +28,10 @@ CFG = {
                    "throttled sink lists the same names and gives hashes and contents equal to what was written (independent SHA-256), and has the "
                    "same length as the memory-written one when no layer is on; (b) rows through the throttled source == rows from memory == what was "
                    "written; (c) repair from the throttled source gives the same status, unfinished set and recovered files as from memory.",
-    "assumptions": [
+    "explanation_fscomp": "fail-safe decompression (props/C13.v): C13_fs_comp_sched_indep — two runs over the same available bytes deliver the same total output whatever the inner source's read schedule (Throttled with any schedule, Cursor: C13_fs_comp_sources), the client's read sizes and the decoder's emission schedule (any two step functions satisfying DecoderLaws for the same D); this is what makes the Tie B comparison of TOTAL outputs between the real decoder and the greedy table-driven instance legitimate.",
+    "trusted_base": ["DecoderLaws (theories/CompFailSafeProofs.v), assumed of brotli's streaming decoder and observed on the real decoder by job c02-comp (fscomp.rs::check_laws, random input slices and output room): D x = maximal output decodable from the consumed bytes x, fin x = x is exactly one complete stream; fin [] = false; fin is prefix-free; D is monotone; a call consumes <= the input and produces <= the room; never consumes past the end of a complete stream; everything emitted so far is a prefix of D(consumed); ResultSuccess only with exactly one complete stream consumed and nothing pending; NeedsMoreInput only with all input consumed and (room exhausted or nothing pending); NeedsMoreOutput only with the room exhausted and something pending; ResultFailure never on bytes consistent with a complete stream. No assumption on how much one call emits otherwise.", 'the bytes after the last compressed block (SizesInfo footer) are `dead` for a fresh decoder: no output and no complete stream on any prefix (complete EMPTY streams inside the footer are covered by listing them as blocks); checked for every generated stream by c02-comp (tail_fail_at)'],
+    "assumptions": ['fail-safe decompression: per-read granularity is NOT schedule independent (and not claimed); on INVALID streams the output may depend on the schedule (output of a call that reports ResultFailure is dropped by the code): theorems are for valid blocks + dead footer',
+                    
         "the destination never returns Ok(n) with n larger than the buffer (std's write_all would panic on the slice) and a finite number of "
         "interruptions per write_all (std retries forever otherwise); a destination returning another error or Ok(0) makes the writer fail: not "
         "part of the property (write_all_any / write_all_zero: the destination then holds a prefix)",
@@ -41,3 +46,6 @@ CFG = {
         "covered by the oracle (D5 was found this way and is fixed)",
     ],
 }
+# work package fscomp: the fail-safe decompression reader (appended to the texts above)
+CFG["rule"] += "; " + CFG.pop("rule_fscomp")
+CFG["explanation"] += " || " + CFG.pop("explanation_fscomp")
